@@ -57,6 +57,8 @@ def typed_structure(draw, min_atoms=1, max_atoms=8, tag_base=0, cell="lammps", t
     spec = M.empty_spec()
     c = draw(cell_any(oriented="any-or-none" if cell == "any-or-none" else "lammps")) if cell != "none" else None
     spec["cell"] = c
+    if draw(hperm.integers(0, 7)) == 0:
+        spec["term_arrays"] = "fortran"
     if c is not None and all(float(x).is_integer() for r in c for x in r):
         spec["cell_form"] = draw(st.sampled_from(["float", "int-list", "int-array"]))
     ntypes = draw(hperm.integers(1, 4))
@@ -125,6 +127,7 @@ def spec_stats(spec, stats, prefix=""):
         elif spec[kind + "_coeffs"]:
             mode = "table-no-terms"
         stats.count("%s%s:%s" % (prefix, kind, mode))
+    stats.count("%sterm-arrays:%s" % (prefix, spec.get("term_arrays", "lists")))
     stats.count("%scell-given-as:%s" % (prefix, spec.get("cell_form", "float") if spec.get("cell") is not None else "none"))
     stats.count("%spair-table:%s" % (prefix, bool(spec["pair_coeffs"])))
     stats.count("%sextra-atom-columns:%s" % (prefix, bool(spec["extra_atom_labels"])))
